@@ -65,6 +65,7 @@ theorem C18_layers_step_reject_unchanged {s s' : State} {op : Op} {e : Err}
   | modifyCellU l c op x => simp only [step] at h; unfold modifyCellU modifyCell at h; reject_branches
   | fromData n hd => simp only [step] at h; unfold fromData at h; reject_branches
   | grab hd l => simp only [step] at h; unfold grab at h; reject_branches
+  | grabMask hd => simp only [step] at h; unfold grabMask at h; reject_branches
   | hget hd c => simp only [step, Prod.mk.injEq] at h; exact h.1.symm
   | hset hd c v => simp only [step] at h; unfold hset at h; reject_branches
   | hdump hd => simp only [step, Prod.mk.injEq] at h; exact h.1.symm
